@@ -39,15 +39,22 @@ func loadKnown() {
 // IsKnown reports whether a failure of the given class is a listed, unrepaired finding.
 func IsKnown(prop, region, symptom string) bool {
 	for _, f := range findings {
-		if f.Status != "known" || f.Property != prop || f.Region != region {
+		if f.Status != "known" || f.Property != prop || !matchPat(f.Region, region) {
 			continue
 		}
-		if f.Symptom == symptom {
-			return true
-		}
-		if strings.HasSuffix(f.Symptom, "*") && strings.HasPrefix(symptom, strings.TrimSuffix(f.Symptom, "*")) {
-			return true
+		for _, alt := range strings.Split(f.Symptom, "|") {
+			if matchPat(alt, symptom) {
+				return true
+			}
 		}
 	}
 	return false
+}
+
+// matchPat: exact match, or prefix match when the pattern ends in '*'.
+func matchPat(pat, s string) bool {
+	if strings.HasSuffix(pat, "*") {
+		return strings.HasPrefix(s, strings.TrimSuffix(pat, "*"))
+	}
+	return pat == s
 }
